@@ -225,6 +225,33 @@ class ListGen:
             for which in order:
                 self.loop_extra += [f"{k} = {which}{k}", f"mon.write(len({k}))"] + ([f"mon.write({k}[0])"] if which == "full" else [])
             self.features.add("switch-assign-empty-and-full")
+        if r.random() < 0.4:
+            # a declared list re-assigned from a conditional expression that may yield the list itself (never mutated afterwards)
+            k = self.fresh("ce")
+            i = self.L.index("from Reduino.Utils import sleep")
+            if "from Reduino.Core import analog_read" not in self.L:
+                self.L.insert(i, "from Reduino.Core import analog_read")
+            self.L += [f"n{k} = analog_read(0) % 3 + 2", f"{k} = [q + 1 for q in range(n{k})]", f"o{k} = [q + {r.randint(5, 9)} for q in range(n{k})]"]
+            cond = r.choice(["count % 2 == 0", "count > 1", "count > 100", "count % 3 == 1"])
+            form = r.choice([f"{k} = o{k} if {cond} else {k}", f"{k} = {k} if {cond} else o{k}"])
+            self.loop_extra += [form, f"mon.write({k}[0])", f"mon.write(len({k}))"]
+            self.features.add("list-assign-from-conditional-self")
+        if r.random() < 0.4:
+            # a list of lists: one row grows and shrinks by the same element on every pass and is walked by its current length
+            g = self.fresh("grid")
+            rows = [[r.randint(1, 9) for _ in range(r.randint(1, 3))] for _ in range(2)]
+            self.L += [f"{g} = {rows}", f"mon.write(len({g}))", f"mon.write(len({g}[0]))", f"mon.write({g}[1][0])"]
+            j = self.fresh("j")
+            row = r.choice([0, 1])
+            self.loop_extra += [f"{g}[{row}].append(90 + count)", f"mon.write(len({g}[{row}]))", f"for {j} in range(len({g}[{row}])):", f"    mon.write({g}[{row}][{j}])",
+                                f"{g}[{row}].remove(90 + count)", f"mon.write({g}[{row}][len({g}[{row}]) - 1])", f"mon.write(len({g}[{1 - row}]))"]
+            if r.random() < 0.5:
+                # ... or shrinks first and grows back (any length folded from the literal is too large in between)
+                first = rows[row][0]
+                if rows[row].count(first) == 1 and len(rows[row]) >= 2:
+                    self.loop_extra += [f"{g}[{row}].remove({first})", f"mon.write({g}[{row}][len({g}[{row}]) - 1])", f"for {j}b in range(len({g}[{row}])):", f"    mon.write({g}[{row}][{j}b])",
+                                        f"{g}[{row}].append({first})"]
+            self.features.add("nested-list-row-append-remove")
         if "list-alias" in self.hz:
             src = r.choice(names)
             al = self.fresh("alias")
